@@ -50,8 +50,67 @@ fn gen_weights(r: &mut Rng, n: usize) -> (&'static str, Vec<i64>) {
     }
 }
 
+/// Heavy-edge family: weighted degrees far above 2^16 mixed with light edges, partitions that
+/// make every remaining move a bad one with a huge negative gain (both ends of a heavy edge on
+/// the same side, one-sided inputs), bad moves allowed (1..3) and several passes, so that a huge
+/// negative gain is booked, moved, and followed by good moves.
+fn gen_heavy(r: &mut Rng, big: bool) -> Case {
+    let n = r.range(2, if big { 6 } else { 5 }) as usize;
+    let hi: i64 = if big && n <= 4 { *r.pick(&[140_000, 400_000, 1_000_000]) } else { 140_000 };
+    let mut adj: Adj = vec![Vec::new(); n];
+    let mut heavy: Vec<(usize, usize)> = Vec::new();
+    for u in 0..n {
+        for v in 0..u {
+            if r.chance(3, 5) || (u == 1 && v == 0) {
+                let w = if r.chance(1, 2) || (u == 1 && v == 0) {
+                    heavy.push((u, v));
+                    r.range(66_000, hi)
+                } else {
+                    r.range(1, 9)
+                };
+                adj[u].push((v, w));
+                adj[v].push((u, w));
+            }
+        }
+    }
+    for row in adj.iter_mut() {
+        row.sort();
+    }
+    let (pname, p0): (&str, Vec<usize>) = match r.below(3) {
+        0 => ("heavy_one_sided", vec![r.below(2) as usize; n]),
+        1 => {
+            // both ends of a heavy edge on the same side, the rest at random
+            let mut p: Vec<usize> = (0..n).map(|_| r.below(2) as usize).collect();
+            let (a, b) = *r.pick(&heavy);
+            p[a] = p[b];
+            ("heavy_same_side", p)
+        }
+        _ => ("heavy_random", (0..n).map(|_| r.below(2) as usize).collect()),
+    };
+    let (wname, ws) = match r.below(3) {
+        0 => ("ones", vec![1; n]),
+        1 => ("all_zero", vec![0; n]),
+        _ => ("random", (0..n).map(|_| r.range(0, 3)).collect()),
+    };
+    Case {
+        fam: "heavy".to_string(),
+        pfam: format!("partition/{}", pname),
+        wfam: format!("weights/{}", wname),
+        adj,
+        ws,
+        p0,
+        mp: *r.pick(&[None, None, Some(2), Some(3), Some(5)]),
+        mm: *r.pick(&[None, None, None, Some(n), Some(2 * n)]),
+        mi: *r.pick(&[None, Some(1.0), Some(1.0), Some(0.5), Some(3.0)]),
+        mb: r.range(1, 3) as usize,
+    }
+}
+
 fn gen_case(r: &mut Rng, tier: &str) -> Case {
     let big = tier == "thorough";
+    if r.chance(1, 25) {
+        return gen_heavy(r, big);
+    }
     let (gname, mut adj) = gen_graph(r, big);
     let n = adj.len();
     let (pname, mut p0) = gen_partition(r, &adj, 0, 1);
@@ -130,6 +189,60 @@ fn gen_case(r: &mut Rng, tier: &str) -> Case {
 
 type Out = (Vec<usize>, Vec<usize>, Vec<usize>);
 
+/// Like `verif_harness::guarded`, but the watchdog also stops waiting when the trace sink grows
+/// beyond any terminating run (a pass moves each vertex once; passes are bounded by the cut):
+/// a runaway move loop would otherwise fill the memory before the timeout.
+/// Returns the outcome and the records drained meanwhile.
+fn guarded_traced<T: Send + 'static>(
+    timeout: Duration,
+    max_records: usize,
+    f: impl FnOnce() -> T + Send + 'static,
+) -> (Guarded<T>, Vec<(&'static str, Vec<u64>)>) {
+    use std::panic::{catch_unwind, AssertUnwindSafe};
+    let (tx, rx) = std::sync::mpsc::channel();
+    std::thread::Builder::new()
+        .stack_size(64 << 20)
+        .spawn(move || {
+            let r = catch_unwind(AssertUnwindSafe(f));
+            let _ = tx.send(match r {
+                Ok(v) => Guarded::Done(v),
+                Err(e) => {
+                    let msg = if let Some(s) = e.downcast_ref::<&str>() {
+                        s.to_string()
+                    } else if let Some(s) = e.downcast_ref::<String>() {
+                        s.clone()
+                    } else {
+                        "panic".to_string()
+                    };
+                    Guarded::Panic(msg)
+                }
+            });
+        })
+        .unwrap();
+    let start = std::time::Instant::now();
+    let mut trace = Vec::new();
+    loop {
+        match rx.recv_timeout(Duration::from_millis(20)) {
+            Ok(g) => {
+                trace.extend(coupe::verif::drain());
+                return (g, trace);
+            }
+            Err(_) => {
+                trace.extend(coupe::verif::drain());
+                if start.elapsed() > timeout || trace.len() > max_records {
+                    // hang (or runaway loop): stop recording, the thread is leaked
+                    coupe::verif::trace_enable(false);
+                    let _ = coupe::verif::drain();
+                    // the case is a failure whatever the model says: keep only the beginning of the
+                    // trace (a case file with 10^5 moves does not even parse)
+                    trace.truncate(64);
+                    return (Guarded::Hang, trace);
+                }
+            }
+        }
+    }
+}
+
 fn main() {
     let a = parse_args();
     quiet_panics();
@@ -162,7 +275,9 @@ fn main() {
         let p02 = c.p0.clone();
         let (mp, mm, mi, mb) = (c.mp, c.mm, c.mi, c.mb);
         let _ = coupe::verif::drain();
-        let res: Guarded<Result<Out, coupe::Error>> = guarded(0, Duration::from_secs(20), move || {
+        // no terminating run records more: <= n moves per pass, and the passes are bounded by the
+        // total edge weight (every pass but the last lowers the cut); capped for memory
+        let (res, trace): (Guarded<Result<Out, coupe::Error>>, _) = guarded_traced(Duration::from_secs(20), 200_000, move || {
             let m = coupe::sprs::CsMat::new((n, n), indptr, indices, data);
             let mut p = p02;
             coupe::FiducciaMattheyses {
@@ -174,7 +289,6 @@ fn main() {
             .partition(&mut p, (m.view(), &ws2[..]))
             .map(|md| (p, md.moves_per_pass.clone(), md.rewinded_moves_per_pass.clone()))
         });
-        let trace = coupe::verif::drain();
         // the oracle: per pass (recorded cut, moves)
         let mut passes: Vec<(i64, Vec<(usize, i64)>)> = Vec::new();
         for (kind, data) in &trace {
@@ -250,10 +364,11 @@ fn main() {
             None => "null".to_string(),
         };
         let coq = format!(
-            "mk07 {} {} {} {} {} {} {}%N [{}] {} {} {}",
+            "mk07 {} {} {} {} {} {} {} {}%N [{}] {} {} {}",
             coq_graph(&c.adj),
             coq_zlist(c.ws.iter().map(|x| *x as i128)),
             coq_nlist(c.p0.iter().map(|x| *x as u128)),
+            coq_bool(cfg!(debug_assertions)),
             coq_opt_n(c.mp),
             coq_opt_n(c.mm),
             mi_coq,
@@ -278,8 +393,9 @@ fn main() {
             _ => "",
         };
         let json = format!(
-            "{{{}\"graph\":{},\"weights\":{},\"partition\":{},\"max_passes\":{},\"max_moves_per_pass\":{},\"max_imbalance\":{},\"max_imbalance_bits\":{},\"max_bad_move_in_a_row\":{},\"trace\":[{}],\"impl\":{}}}",
+            "{{{}\"debug_assertions\":{},\"graph\":{},\"weights\":{},\"partition\":{},\"max_passes\":{},\"max_moves_per_pass\":{},\"max_imbalance\":{},\"max_imbalance_bits\":{},\"max_bad_move_in_a_row\":{},\"trace\":[{}],\"impl\":{}}}",
             kf,
+            cfg!(debug_assertions),
             json_graph(&c.adj),
             json_i64s(&c.ws),
             json_usizes(&c.p0),
@@ -308,7 +424,8 @@ fn main() {
         w.push(coq, json, &key, nontrivial, &c.fam);
         *w.dist.entry(c.pfam.clone()).or_insert(0) += 1;
         *w.dist.entry(c.wfam.clone()).or_insert(0) += 1;
-        if hangs > 3 {
+        if hangs > 0 {
+            // tracing was switched off and a thread is still spinning: the case is reported, stop here
             break;
         }
     }
